@@ -15,7 +15,7 @@ opts (all optional):
   presim_queries: after the earlier runs all read-only helpers (get_*_list, extract_*, chart/network data, print_*) are called once;
   alloc_fault: [k, n] -> an earlier run is aborted inside the allocation of step k (the n-th can_add_resources call of that step raises); the observed run continues it;
   first_absence / first_auto_abs: with resume_from, the absence list / automatic-task flag of the part before the stop (the continuation uses `absence` / `auto_abs`);
-  pause_queries: with resume_from, all read-only helpers are called once at the stop;
+  pause_queries: with resume_from, all read-only helpers are called once at the stop; pause_reconfigure: sub-project tasks are configured again from their files there;
   resume_via_json: with resume_from, the stopped project is written to JSON, read into a new project and continued there.
 """
 import traceback
@@ -69,6 +69,11 @@ class Exec(object):
 def prepare(spec, opts):
     # build_from: the objects are built from an earlier version of the model and edited later (opts["edit"]) into `spec`
     m = S.build(opts.get("build_from") or spec, plain=bool(opts.get("plain")))
+    if spec.get("subproject_setup"):
+        for t_ in m.tasks:  # sub-project tasks take their size from the saved project they stand for
+            if hasattr(t_, "set_all_attributes_from_json") and getattr(t_, "file_path", None):
+                t_.set_all_attributes_from_json(remove_absence_time_list=False)
+                t_.set_work_amount_progress_of_unit_step_time(m.project.unit_timedelta)
     for name, lst in (opts.get("res_absence") or {}).items():
         if name in m.byname:
             m.byname[name].absence_time_list = list(lst)
@@ -214,6 +219,11 @@ def run(spec, opts=None, model=None, call=None):
                 fo["auto_abs"] = opts["first_auto_abs"]  # ... and with another value of the automatic-task flag
             first = sim_kwargs(fo)
             ex.m.project.simulate(**dict(first, max_time=opts["resume_from"]))
+            if opts.get("pause_reconfigure"):
+                for t_ in ex.m.tasks:  # sub-project tasks are configured again from their (unchanged) files at the stop
+                    if hasattr(t_, "set_all_attributes_from_json") and getattr(t_, "file_path", None):
+                        t_.set_all_attributes_from_json(remove_absence_time_list=False)
+                        t_.set_work_amount_progress_of_unit_step_time(ex.m.project.unit_timedelta)
             if opts.get("pause_queries"):
                 read_only_calls(ex.m.project)  # every read-only helper (queries, chart data, printing) is called once at the stop
             if opts.get("resume_via_json"):
